@@ -1063,6 +1063,45 @@ def d4e_operator_consulted_for_every_element(chk: Check) -> None:
         raise AnalysisError("search_matches calls: {}".format(n))
 
 
+def d16_container_tests_name_concrete_kinds(chk: Check) -> None:
+    """The evaluator tells containers from scalars with isinstance tests on
+    concrete classes (list, dict, the ruamel classes).  The abstract
+    classes of collections.abc are wider than they look: text is a
+    Sequence, an Iterable and a Collection, so `isinstance(data, Sequence)`
+    in an index arm lets `/*[0]` select the first *character* of every
+    String sibling -- and a delete through that path is refused as an
+    attempt on "the entire document"."""
+    prog = chk.prog
+    chk.rule("C01-D16", "no isinstance test of the evaluator names an "
+             "abstract collection class that text satisfies (Sequence, "
+             "Iterable, Collection, Container, Sized, Reversible)",
+             floor=20)
+    wide = {"Sequence", "Iterable", "Collection", "Container", "Sized",
+            "Reversible", "Hashable"}
+    n = 0
+    for fi in prog.funcs_in("yamlpath/processor.py") + \
+            prog.funcs_in("yamlpath/common/keywordsearches.py"):
+        for c in walk_local(fi.node):
+            if not (isinstance(c, ast.Call) and src(c.func) == "isinstance"
+                    and len(c.args) == 2):
+                continue
+            n += 1
+            spec = c.args[1]
+            names = {src(e).split(".")[-1] for e in
+                     (spec.elts if isinstance(spec, ast.Tuple) else [spec])}
+            bad = names & wide
+            if bad:
+                chk.fail("C01-D16", fi, c, "{}: {}".format(
+                    fi.short, src(c)[:50]),
+                    "{} is satisfied by text: a String node is treated as "
+                    "a container of characters".format(sorted(bad)))
+            else:
+                chk.ok("C01-D16", fi, c, "{}: {}".format(
+                    fi.short, src(c)[:40]), "concrete classes", False)
+    if n < 20:
+        raise AnalysisError("isinstance tests examined: {}".format(n))
+
+
 def d5b_scalars_have_no_attributes(chk: Check) -> None:
     """`[name=value]` on a scalar: a scalar has no attribute `name`, so the
     plain search does not select it (and the inverted one does).  Only the
@@ -1114,6 +1153,7 @@ def run(chk: Check) -> None:
     d13_filtered_traversal_recursion(chk)
     d15_leaf_means_no_container(chk)
     d4e_operator_consulted_for_every_element(chk)
+    d16_container_tests_name_concrete_kinds(chk)
     from rules.shared import merge_identity_rule
     merge_identity_rule(chk, "C01-D14", ("yamlpath/processor.py",), 3)
     d1_dispatch(chk)
